@@ -14,6 +14,7 @@ package bytesize
 
 //@ props C17 C16
 //@ func Parse
+//@   pure
 //@   nopanic
 //@   ensures [C17] result1 == nil ==> specSizeWF(s)
 //@   ensures [C17] result1 == nil ==> result0 == specSizeVal(s)
@@ -26,6 +27,7 @@ package bytesize
 
 //@ props C17 C16
 //@ func ByteSize.ToString
+//@   pure
 //@   nopanic
 //@   ensures specUnitOf(unitRune) > 0 <==> result1 == nil
 //@   ensures result1 == nil && b >= 0 ==> len(result0) >= 2 && result0[len(result0)-1] == unitRune
@@ -35,6 +37,7 @@ package bytesize
 
 //@ props C17 C16
 //@ func ByteSize.FindLargestFittingUnit
+//@   pure
 //@   nopanic
 //@   ensures specUnitOf(result) > 0
 //@   ensures [C17] b >= 0 ==> b % specUnitOf(result) == 0
@@ -45,6 +48,7 @@ package bytesize
 
 //@ props C17 C16
 //@ func ByteSize.String
+//@   pure
 //@   nopanic
 //@   ensures [C17] b >= 0 ==> specSizeWF(result) && specSizeVal(result) == b
 //@   ensures b >= 0 ==> (forall n int :: 0 <= n && n < len(result) ==> specDecVal(result, n) <= b)
